@@ -127,7 +127,7 @@ def makeParams (delim hdr trim oidx : String) : Option Params := do
     fields of every record under the delimiters in play, with quotes removed and kept -/
 def csvCells (p : Params) (lines : List Str) : List Str :=
   let nb := lines.filter (fun l => !isBlank l)
-  let ds := (if p.delim = '\x00' then [] else [p.delim]) ++ [guessDelimiter lines]
+  let ds := (if p.delim = '\x00' then [] else [p.delim]) ++ [guessDelimiter 20 lines]
   let fields := ds.flatMap (fun d =>
     nb.flatMap (fun l => parseLine { delim := d, trimWs := p.trimWs } l ++
                          parseLine { delim := d, keepQuotes := true } l ++
@@ -264,13 +264,13 @@ def answer (line : String) : String :=
       match unhex bytes with
       | some b =>
         let lines := splitLines b
-        let d := guessDelimiter lines
+        let d := guessDelimiter 20 lines
         let cells := ((lines.filter (fun l => !isBlank l)).flatMap (fun l =>
           parseLine { delim := d, keepQuotes := true } l ++ parseLine { delim := d } l)).map trim
         let ms := missing dict cells.eraseDups
         if !ms.isEmpty then needStr ms
         else
-          let s := sniffer (oracle dict) lines
+          let s := sniffer (oracle dict) 20 lines
           s!"ok {s.1.toNat} {if s.2 then 1 else 0}"
       | none => "bad-op"
     | _ => "bad-op"
